@@ -358,6 +358,9 @@ pub fn run(ctx: &Ctx) -> Report {
 pub fn replay(ctx: &Ctx, v: &Value) -> Result<Outcome, String> {
     #[cfg(feature = "full")]
     {
+        if v["label"].as_str().map(|l| l.starts_with("c08t")).unwrap_or(false) {
+            return super::c08_full::replay_traces(ctx);
+        }
         if v["label"].as_str().map(|l| l.starts_with("c08s")).unwrap_or(false) {
             return super::c08_full::replay(ctx, v);
         }
@@ -367,4 +370,4 @@ pub fn replay(ctx: &Ctx, v: &Value) -> Result<Outcome, String> {
     Ok(check(&c))
 }
 
-pub const RULE: &str = "(a) proptest-generated histories vec(op,0..40) over {absorb felt, absorb vector len 0..6, absorb u64, squeeze, squeeze-many} from a PRF digest and counter 0..3, interpreted on Transcript and on the sponge model (every output and (digest,counter) compared after every step), plus metamorphic laws on the same history: bump one absorbed value => earlier outputs/states identical, every later digest and challenge different; challenges between absorbs pairwise distinct; prefix determinism. Non-trivial history = >=2 absorbs, >=2 squeezes, a squeeze-absorb-squeeze pattern and a vector absorb of length >=2. (b) phase-level: every message of fri_commit (layer roots, last-layer coefficients) bumped => evaluation points before it unchanged, after it changed, final digest changed; traces_commit / table_commit / PoW / generate_queries likewise (full builds). (c) all shipped Stone proofs of the build: seed = get_hash, stark_commit + generate_queries must reproduce the prover-logged interaction elements, OODS point, FRI evaluation points and query index set; distinct = per challenge compared";
+pub const RULE: &str = "(a) proptest-generated histories vec(op,0..40) over {absorb felt, absorb vector len 0..6, absorb u64, squeeze, squeeze-many} from a PRF digest and counter 0..3, interpreted on Transcript and on the sponge model (every output and (digest,counter) compared after every step), plus metamorphic laws on the same history: bump one absorbed value => earlier outputs/states identical, every later digest and challenge different; challenges between absorbs pairwise distinct; prefix determinism. Non-trivial history = >=2 absorbs, >=2 squeezes, a squeeze-absorb-squeeze pattern and a vector absorb of length >=2. (b) phase-level: every message of fri_commit (layer roots, last-layer coefficients) bumped => evaluation points before it unchanged, after it changed, final digest changed; traces_commit / table_commit / PoW / generate_queries likewise (full builds). (c) all shipped Stone proofs of the build: seed = get_hash, stark_commit + generate_queries must reproduce the prover-logged interaction elements (as a multiset and element #k = the k-th name of the draw order; the same order is checked against the sponge model on PRF seeds for all 7 layouts), OODS point, FRI evaluation points and query index set; distinct = per challenge compared";
